@@ -261,9 +261,10 @@ class Ref:
             else:
                 self.defs.setdefault(key, []).append(cl)
 
-    def register(self, key, clauses):
-        """register_function: replaces whatever is registered under that key"""
-        self.defs[key] = [list(clauses)]
+    def register(self, key, definition):
+        """register_function: replaces whatever is registered under that key; definition is a
+        list of clauses or a callable model d(ref, args, env) -> envs"""
+        self.defs[key] = [definition if callable(definition) else list(definition)]
 
     def clear(self):
         self.defs = {}
@@ -386,6 +387,10 @@ class Ref:
         if not defs:
             return
         for d in list(defs):
+            if callable(d):
+                # model of a registered Python predicate: d(ref, args, env) yields envs
+                yield from d(self, args, env)
+                continue
             cut = [False]
             for head, body in d:
                 self.tick(depth)
